@@ -92,6 +92,10 @@ def set_kind(fm: FuncModel, e: ast.AST, at, depth=0) -> str | None:
         l, r = set_kind(fm, e.left, at, depth + 1), set_kind(fm, e.right, at, depth + 1)
         if l or r:
             return "str" if "str" in (l, r) else "int"
+        # a set operator applied to a dictionary view gives a set, whatever the other operand is (`d.keys() & some_list`)
+        for side in (e.left, e.right):
+            if isinstance(side, ast.Call) and isinstance(side.func, ast.Attribute) and side.func.attr in ("keys", "items") and not side.args:
+                return "str"
         return None
     if isinstance(e, ast.Name):
         ann = _annotation(fm, e.id)
@@ -729,8 +733,27 @@ def n4(ck: Check) -> None:
                         if isinstance(t, ast.Name):
                             muts[t.id] = kind
         module_mutables[m.name] = muts
+    class_mutables: dict[str, dict[str, str]] = {}
+    for m in prog.repo.modules.values():
+        for c_ in ast.walk(m.tree):
+            if isinstance(c_, ast.ClassDef):
+                for s_ in c_.body:
+                    if isinstance(s_, (ast.Assign, ast.AnnAssign)) and s_.value is not None:
+                        v_ = s_.value
+                        kind = "dict" if isinstance(v_, (ast.Dict, ast.DictComp)) else "list" if isinstance(v_, (ast.List, ast.ListComp)) else \
+                            "set" if isinstance(v_, (ast.Set, ast.SetComp)) else \
+                            callee_name(v_) if isinstance(v_, ast.Call) and callee_name(v_) in ("dict", "list", "set", "defaultdict", "OrderedDict", "deque") else None
+                        if kind:
+                            for t in (s_.targets if isinstance(s_, ast.Assign) else [s_.target]):
+                                if isinstance(t, ast.Name) and t.id != "__slots__":
+                                    class_mutables.setdefault(c_.name, {})[t.id] = kind
     for fm in prog.models():
         f = fm.f
+        for dec in f.node.decorator_list:
+            dn = (dotted(dec.func if isinstance(dec, ast.Call) else dec) or "").split(".")[-1]
+            if dn in ("cache", "lru_cache", "cached_property", "memoize", "memoized"):
+                ck.ob("N4", fm, f.node, False, f"`{f.name}` is memoised (`@{dn}`): the table outlives every call and is keyed by object "
+                                               f"identity/hash, not by the contents of mutable arguments", key=f"memoised {f.name}")
         for n in own_walk(f.node):
             if isinstance(n, (ast.Global, ast.Nonlocal)):
                 ck.ob("N4", fm, n, False, f"`{text(n)}`: state shared between calls / diagrams")
@@ -796,6 +819,73 @@ def n4(ck: Check) -> None:
                               f"the module-level {mm[n.id]} `{n.id}` {leak} without a copy: every diagram that receives it shares one "
                               f"object, so changing a setting of one diagram (`sd.config[...] = ...`) changes all the others, "
                               f"earlier and later ones", key=f"shared module object {n.id} in {f.name}")
+        # the same for mutable objects kept as class attributes (one object per class = per process)
+        for cname, cm in class_mutables.items():
+            for n in own_walk(f.node):
+                if isinstance(n, ast.Attribute) and isinstance(n.ctx, ast.Load) and n.attr in cm and isinstance(n.value, ast.Name) \
+                        and (n.value.id == cname or (f.cls == cname and n.value.id in ("self", "cls"))):
+                    par = f.parents.get(n)
+                    leak = None
+                    if isinstance(par, (ast.Assign, ast.AnnAssign)) and par.value is n:
+                        leak = "is aliased by an assignment"
+                    elif isinstance(par, ast.Return):
+                        leak = "is returned"
+                    elif isinstance(par, ast.IfExp) and (par.body is n or par.orelse is n):
+                        leak = "is handed on by a conditional expression"
+                    elif isinstance(par, ast.BoolOp):
+                        leak = "is handed on by `or`/`and`"
+                    elif isinstance(par, ast.Call) and n in par.args and callee_name(par) not in (
+                            "copy", "deepcopy", "dict", "list", "set", "tuple", "frozenset", "sorted", "len", "isinstance", "print",
+                            "any", "all", "sum", "min", "max", "enumerate", "zip", "iter", "repr", "str"):
+                        leak = f"is passed to `{text(par.func)[:30]}`"
+                    elif isinstance(par, ast.keyword):
+                        leak = "is passed as a keyword argument"
+                    elif isinstance(par, (ast.List, ast.Tuple, ast.Set, ast.Dict)):
+                        leak = "is stored inside another object"
+                    elif isinstance(par, ast.Attribute) and isinstance(f.parents.get(par), ast.Call) and f.parents[par].func is par \
+                            and par.attr in ("append", "add", "update", "extend", "pop", "clear", "remove", "setdefault", "insert"):
+                        leak = f"is modified (`.{par.attr}`)"
+                    elif isinstance(par, ast.Subscript) and par.value is n and isinstance(par.ctx, (ast.Store, ast.Del)):
+                        leak = "is written into"
+                    if leak:
+                        ck.ob("N4", fm, f.stmt_of(n), False,
+                              f"the {cm[n.attr]} `{cname}.{n.attr}` (one object for the whole class) {leak} without a copy: every "
+                              f"diagram that receives it shares it, so changing it for one diagram changes all the others, "
+                              f"earlier and later ones", key=f"shared class object {cname}.{n.attr} in {f.name}")
+        # a mutable local that a returned inner function keeps writing to lives as long as that function: a memo table
+        # or a counter behind a decorator is state shared by all later calls
+        inner_defs = [x for x in own_walk(f.node) if isinstance(x, ast.FunctionDef) and x is not f.node]
+        if inner_defs:
+            muts_local = {}
+            for x in own_walk(f.node):
+                if isinstance(x, (ast.Assign, ast.AnnAssign)) and x.value is not None:
+                    v_ = x.value
+                    kind = "dict" if isinstance(v_, (ast.Dict, ast.DictComp)) else "list" if isinstance(v_, (ast.List, ast.ListComp)) else \
+                        "set" if isinstance(v_, (ast.Set, ast.SetComp)) else \
+                        callee_name(v_) if isinstance(v_, ast.Call) and callee_name(v_) in ("dict", "list", "set", "defaultdict", "OrderedDict", "deque") else None
+                    if kind:
+                        for t in (x.targets if isinstance(x, ast.Assign) else [x.target]):
+                            if isinstance(t, ast.Name):
+                                muts_local[t.id] = kind
+            returned = {r_.value.id for r_ in own_walk(f.node) if isinstance(r_, ast.Return) and isinstance(r_.value, ast.Name)}
+            for g_ in inner_defs:
+                if g_.name not in returned:
+                    continue
+                g_locals = {a_.arg for a_ in g_.args.posonlyargs + g_.args.args + g_.args.kwonlyargs} | {
+                    y.id for y in ast.walk(g_) if isinstance(y, ast.Name) and isinstance(y.ctx, ast.Store)}
+                for y in ast.walk(g_):
+                    nm_ = None
+                    if isinstance(y, ast.Call) and isinstance(y.func, ast.Attribute) and isinstance(y.func.value, ast.Name) and y.func.attr in (
+                            "append", "add", "update", "extend", "pop", "clear", "remove", "setdefault", "insert", "popitem", "move_to_end"):
+                        nm_ = y.func.value.id
+                    elif isinstance(y, ast.Subscript) and isinstance(y.ctx, (ast.Store, ast.Del)) and isinstance(y.value, ast.Name):
+                        nm_ = y.value.id
+                    if nm_ and nm_ in muts_local and nm_ not in g_locals:
+                        ck.ob("N4", fm, g_, False,
+                              f"`{g_.name}`, which `{f.name}` returns, keeps writing to the {muts_local[nm_]} `{nm_}` of the enclosing "
+                              f"call: the object outlives the call (memo table / history behind a decorator), so a result can depend on "
+                              f"earlier calls in the process -- and on objects that were changed since", key=f"closure state {nm_} in {f.name}")
+                        break
         # mutable default arguments
         for p, d in f.param_defaults().items():
             if isinstance(d, (ast.List, ast.Dict, ast.Set, ast.ListComp, ast.DictComp, ast.SetComp)) or isinstance(d, ast.Call):
